@@ -30,8 +30,10 @@ RULE = (
 BOUNDS = {
     "quick": {"d": 2, "max_exec_per_tree": 2500, "d_mixed_mode_recheck": 1, "liveness_max_exec": 2600, "chars": ["a", "0"]},
     "thorough": {"d": 3, "max_exec_per_tree": 12000, "d_mixed_mode_recheck": 2, "liveness_max_exec": 40000,
-                 "chars": ["a", "b", "0", "1", "\x00", "é", " "]},
+                 "chars": ["a", "b", "0", "1", "\x00", "é", " "], "k2_grammar_d": 2},
 }
+# Measured (quick, unchanged tree): 281 documents, 100 841 executions, ~600 k tree nodes, all d<=2 trees completed (largest 1 222
+# executions), 41 liveness trees exhausted (largest 2 048); ~5-7 ms CPU per execution => ~700 CPU-seconds.
 BUDGET_S = {"quick": 150, "thorough": 3000}
 CHUNK = 1
 ENGINES = ["E2", "E1"]
@@ -54,6 +56,8 @@ ASSUMPTIONS = [
     "draws outside the stated candidate alphabets and beyond d deviations are not explored; liveness is decided over the minimal alphabet only",
     "a non-body location is judged as the object of its parameters: it violates iff a declared value violates its schema under string "
     "coercion, a required parameter is missing, or an undeclared name is present; it conforms iff none of these and every value conforms",
+    "wire model of the query: a list value is sent as repeated name=item pairs (a one-item list is that item, an empty list is an "
+    "omitted parameter; measured on requests' PreparedRequest), longer lists and dict values are left undecided for non-array schemas",
     "evaluator verdict None (1.0 vs integer, formats, unsupported keywords) is never reported",
     "'can be violated' is decided by brute force over mc.smallscope.candidate_values(); operations that are neither clearly negatable "
     "(some value violates) nor clearly un-negatable (everything conforms and nothing can be omitted) get no liveness verdict",
